@@ -99,10 +99,12 @@ class Population(BaseModel):
     # otherwise, the position of each agent is multiplied by -1
     def __init__(self, **kwargs: Any):
         def refine_agent(a: Agent, tt: TaskType) -> Agent:
+            # a recorded generation is a snapshot: copy the agents, so that later cycles updating an agent in place
+            # cannot rewrite the history
             if tt == TaskType.MIN:
-                return a
+                return a.model_copy(deep=True)
             # return the agent with the position multiplied by -1
-            return a.model_copy(update={"cost": -a.cost})
+            return a.model_copy(update={"cost": -a.cost}, deep=True)
 
         task_type = kwargs.get("task_type", TaskType.MIN)
         agents = [refine_agent(a, task_type) for a in kwargs.get("agents", [])]
